@@ -67,6 +67,7 @@ def run(ctx):
                    "package and pass the cheater-detection mode through (so the decided clauses of C03/C04 carry over).")
     ctx.undecided = "that the signature verifies under the randomized and not under the original key (algebra + hashes)."
     ctx.floor = 14
+    refusal_inventory(ctx)
     P = ctx.prog
     f = ctx.anchor(RR + "Randomizer::<C>::regenerate_from_seed_and_commitments")
     if f:
